@@ -52,13 +52,14 @@ pub fn generate(rng: &mut Rng, seed: u64, run: u64, max_len: usize) -> Trace {
         gen_faults(rng, out_len, &[], true)
     };
     let into_inner_after = if rng.chance(1, 3) { rng.below(ops.len() + 1) as i64 } else { -1 };
+    let resilient = rng.chance(1, 2) as i64;
     Trace {
         prop: "C08".into(),
         surface: format!("{mode}/{writer}"),
         input: wl.bytes,
         ops,
         faults,
-        params: vec![("into_inner_after".into(), into_inner_after)],
+        params: vec![("into_inner_after".into(), into_inner_after), ("resilient_client".into(), resilient)],
         seed,
         run,
     }
@@ -230,7 +231,13 @@ impl Lock<'_> {
                 (OpResult::Done, _) => self.c += buf.len(),
                 (OpResult::Err(k), Applied::Write | Applied::Vectored | Applied::Flush) => {
                     if !matches!(k, std::io::ErrorKind::Interrupted | std::io::ErrorKind::WouldBlock) {
-                        stopped = true;
+                        if self.t.param("resilient_client") == Some(1) {
+                            // a client that resubmits after any failed `write` (nothing of the
+                            // buffer was consumed): both sides carry on in lock step
+                            self.stats.probe("history_continued_after_hard_write_error");
+                        } else {
+                            stopped = true;
+                        }
                     }
                 }
                 (OpResult::Err(_), _) => stopped = true,
@@ -307,6 +314,11 @@ impl Lock<'_> {
                 OpResult::Done => buf.len(),
                 OpResult::Err(k) if matches!(kind, Applied::Write | Applied::Vectored | Applied::Flush) => {
                     if matches!(k, std::io::ErrorKind::Interrupted | std::io::ErrorKind::WouldBlock) {
+                        continue;
+                    }
+                    if self.t.param("resilient_client") == Some(1) {
+                        // nothing of the buffer was consumed: the client resubmits
+                        self.stats.probe("history_continued_after_hard_write_error");
                         continue;
                     }
                     self.stats.probe("history_stopped_by_hard_error");
